@@ -1,5 +1,5 @@
 \* C13 closed configuration (quick): every atom shape (3612) as the focus atom at every position
-\* of every list shape (1..2 conjuncts x 1..2 alternatives), context atom with every optional part
+\* of every list shape (1..2 conjuncts x 1..2 alternatives), context atoms are bare names (the thorough configuration also has context atoms with every part)
 CONSTANTS
   MaxConj = 2
   MaxAlt = 2
@@ -7,7 +7,7 @@ CONSTANTS
   MaxGroups = 2
   MaxTerms = 2
   OpIds = {1, 2, 3, 4, 5}
-  CtxKinds = {"full"}
+  CtxKinds = {"bare"}
   Emit = TRUE
   RestrictionsFirst = FALSE
   IgnoreNegation = FALSE
